@@ -13,7 +13,8 @@ CONFIG = {
                 "oneofs (plain, exposed, hidden, named `type`), proto3-optional, maps (string and other key kinds), repeated, every "
                 "scalar kind incl. fixed32/fixed64/sfixed32/sfixed64/sint32/sint64, Timestamp/Duration/Struct/Any/Empty/wrappers/"
                 "FieldMask/Value and the j5 date/decimal/any types, self and mutual recursion (also through flatten), oneof "
-                "wrappers by shape and by option, psm markers, duplicate / custom json_name, schema-name collisions through '_'; "
+                "wrappers by shape and by option, psm markers, duplicate / custom json_name, schema-name collisions through '_' "
+                "(message/message and message/enum); the witnesses of every recorded finding run first in each shard; "
                 "annotations (buf.validate.field) / (j5.list.v1.field) / (j5.ext.v1.field) / (j5.ext.v1.key) consistent with the "
                 "field in every fifth set and with ~10% inconsistent choices otherwise. Each set: SchemaSetFromFiles, then per "
                 "message SchemaCache.Schema, Reflector.NewRoot, codec on the empty message, the query decoder, one populated field "
@@ -30,12 +31,14 @@ CONFIG = {
         "oneof names is shipped, not modelled",
         "protodesc / protoregistry linking: every message / enum a field refers to is in the set, an enum has at least one "
         "value (hypothesis `Linked` of the theorems)",
-        "lib/j5reflect and internal/codec are reached by the Go-side oracle only (newPropSet / newFieldFactory kind checks are "
-        "modelled in J5V/Schema/PropSet.lean); the codec itself is the codec cluster's model",
+        "lib/j5reflect: ClientProperties / newPropSet path resolution are modelled (J5V/Schema/PropSetModel.lean) and tied "
+        "through the NewRoot class of every message; the field factories' kind checks are modelled but reached on the Go "
+        "side by the codec oracle only; internal/codec itself is the codec cluster's model",
     ],
     "assumptions": [
-        "RangeFiles order is unspecified: for sets whose descriptors collide on a schema name the set-level result is not "
-        "compared (recorded open finding name-collision:*)",
+        "RangeFiles order is unspecified; the model reflects file-level messages in declaration order. The class of the "
+        "set-level result does not depend on the order (an error in any message fails the set; colliding schema names are "
+        "an error from either side since af1da62)",
         "populated messages use plain valid values (non-zero defined enum numbers, one member per oneof, small depth)",
     ],
 }
